@@ -28,3 +28,12 @@ class K:
     def class_attr_write(self, k):
         K.shared[k] = 1                   # write to a class attribute
         type(self).flag = True
+
+
+class SharedMemo:
+    _memo = {}
+
+    def lookup(self, key):
+        if key not in self._memo:
+            self._memo[key] = len(key)
+        return self._memo[key]
